@@ -124,35 +124,4 @@ Definition covered_positions : nat * nat :=
                            fold_left (fun a c => (if is_some (shape (snd c)) then S (fst a) else fst a, S (snd a))) cols acc)
             spec_layouts (O, O).
 
-(* C01 at field level, for every pinned layout position whose documented
-   domain is one of the proved kinds *)
-Theorem field_domain_as_documented (Or : oracles) ver annot cols i name d e :
-  In (ver, annot, cols) spec_layouts -> nth_error cols i = Some (name, d) -> shape d = Some e ->
-  exists l cname cls r,
-    find_layout layouts_ok annot = Some l /\ nth_error (l_cols l) i = Some (cname, cls) /\
-    cname = s2l name /\ resolve class_table cls = Some r /\
-    forall t, contains_sep t = false ->
-      (forall v, zone d t = ZAccept v -> field_outcome Or r t = Valid v) /\
-      (zone d t = ZReject -> field_outcome Or r t = Invalid).
-Proof.
-  intros Hin Hnth Hshape.
-  destruct (layout_names_as_documented _ _ _ Hin) as (l & Hl & _ & Hnames).
-  pose proof (proj1 (forallb_forall _ _) all_shapes_match _ Hin) as Hm.
-  unfold shapes_match_in in Hm. rewrite Hl in Hm.
-  assert (Hlen : nth_error (map snd cols) i = Some d) by (rewrite nth_error_map, Hnth; reflexivity).
-  assert (Hn2 : nth_error (map (fun c => s2l (fst c)) cols) i = Some (s2l name))
-    by (rewrite nth_error_map, Hnth; reflexivity).
-  rewrite <- Hnames, nth_error_map in Hn2.
-  destruct (nth_error (l_cols l) i) as [[cname cls]|] eqn:Hc; [|discriminate].
-  simpl in Hn2. injection Hn2 as Hcn.
-  pose proof (forallb2_nth _ _ _ _ _ _ Hm Hc Hlen) as Hok.
-  unfold col_shape_ok in Hok. simpl in Hok.
-  destruct (resolve class_table cls) as [r|] eqn:Hr; [|discriminate].
-  rewrite Hshape in Hok. apply andb_true_iff in Hok as [He Hel].
-  apply ecls_eqb_eq in He. destruct (r_elem r) eqn:Hre; [discriminate|].
-  exists l, cname, cls, r. repeat split; auto.
-  - intros v Hz. rewrite field_outcome_fo by assumption. rewrite He.
-    now apply (proj1 (class_meets_descr Or d e t Hshape H)).
-  - intros Hz. rewrite field_outcome_fo by assumption. rewrite He.
-    now apply (proj2 (class_meets_descr Or d e t Hshape H)).
-Qed.
+(* the field-level theorem over all pinned positions is field_domain_as_documented_all in DomainAll.v *)
